@@ -577,6 +577,16 @@ fn gen_notation(prop: &str, n: usize, rng: &mut StdRng, sink: &mut Sink) {
                     }
                 }
             }
+            // boards reached by the NULL move: from every stream position that carries an e.p. mark, and from
+            // every fourth other one
+            for (i, b) in positions.iter().enumerate() {
+                if b.raw().ep_source.is_some() || i % 4 == 0 {
+                    if let Some(nb) = notation::null_reached(b) {
+                        sink.begin(&json!({"prop": prop, "fen": crate::proj::own_fen(b.raw()), "move": "0000"}));
+                        sink.emit(&notation::fen_board_event(&nb));
+                    }
+                }
+            }
             // the longest FENs there are (89..93 bytes): dense boards, all rights, e.p., five-digit counters
             for i in 0..(n / 8).max(24) {
                 let b = if i < posgen::DENSE_FENS.len() { owlchess::Board::from_fen(posgen::DENSE_FENS[i]).unwrap() } else { posgen::dense(rng) };
@@ -1086,6 +1096,10 @@ fn gen_from(prop: &str, posfile: &Path, out: &Path, cap: usize) {
                     if let Ok(Ok(nb)) = std::panic::catch_unwind(std::panic::AssertUnwindSafe(|| b.make_move(*m))) {
                         sink.emit(&notation::fen_board_event(&nb));
                     }
+                }
+                // ... and by the null move (the e.p. mark must be gone, the side flipped)
+                if let Some(nb) = notation::null_reached(&b) {
+                    sink.emit(&notation::fen_board_event(&nb));
                 }
             }
             "C09" => {
